@@ -246,6 +246,70 @@ func (c *Ctx) oblige(s *State, kind, exprText string, pos token.Pos, goal string
 		// still count it as trivially discharged obligation? skip: keeps counts about real queries
 		return
 	}
+	// conjunctive postconditions / invariants / assertions are discharged conjunct by conjunct
+	if strings.HasPrefix(goal, "(and ") && (strings.HasPrefix(kind, "post") || strings.HasPrefix(kind, "inv-") || strings.HasPrefix(kind, "assert") ||
+		strings.HasPrefix(kind, "exit-assert") || strings.HasPrefix(kind, "pre:")) {
+		parts := flattenAnd(goal)
+		if len(parts) > 1 {
+			for i, p := range parts {
+				c.oblige1(s, fmt.Sprintf("%s.c%d", kind, i+1), exprText, pos, p, tags)
+			}
+			return
+		}
+	}
+	c.oblige1(s, kind, exprText, pos, goal, tags)
+}
+
+func flattenAnd(goal string) []string {
+	if !strings.HasPrefix(goal, "(and ") {
+		return []string{goal}
+	}
+	var out []string
+	for _, p := range splitTopSexp(goal[5 : len(goal)-1]) {
+		out = append(out, flattenAnd(p)...)
+	}
+	return out
+}
+
+func splitTopSexp(s string) []string {
+	var parts []string
+	d := 0
+	start := -1
+	for i := 0; i < len(s); i++ {
+		ch := s[i]
+		switch {
+		case ch == '(':
+			if d == 0 && start < 0 {
+				start = i
+			}
+			d++
+		case ch == ')':
+			d--
+			if d == 0 {
+				parts = append(parts, s[start:i+1])
+				start = -1
+			}
+		case ch == ' ':
+			if d == 0 && start >= 0 {
+				parts = append(parts, s[start:i])
+				start = -1
+			}
+		default:
+			if d == 0 && start < 0 {
+				start = i
+			}
+		}
+	}
+	if start >= 0 {
+		parts = append(parts, s[start:])
+	}
+	return parts
+}
+
+func (c *Ctx) oblige1(s *State, kind, exprText string, pos token.Pos, goal string, tags []string) {
+	if goal == "true" {
+		return
+	}
 	base := fmt.Sprintf("%s/%s(%s)", c.con.Key, kind, truncate(exprText, 64))
 	c.occ[base]++
 	name := fmt.Sprintf("%s#%d", base, c.occ[base])
